@@ -186,6 +186,10 @@ def _run_case_raw(case, fam, keep):
         return list(o)
     loose = _LOOSE.get(fam, 1.0)
     d = runeq.compare(shape_up(outs), exp, loose=loose)
+    empty_operand = any(getattr(v, "size", 1) == 0 for v in feeds.values())
+    # ORT kernels on empty operands can return uninitialised memory (MatMul [2,0]x[0]: the answer changes from run to
+    # run).  For such feeds the verdict is "ok" when EITHER runtime agrees with torch (below: ORT differs, the reference
+    # agrees -> ok instead of a skip), so it does not depend on what ORT happened to find in memory.
     if d is None:
         return "ok", engine
     if engine == "ref" and K.classify_diff(d) == "value" and _equal_at_f32(shape_up(outs), exp, loose):
@@ -202,6 +206,8 @@ def _run_case_raw(case, fam, keep):
         if r[0] == "ok":
             dr = runeq.compare(shape_up(r[1]), exp, loose=loose)
             if dr is None:
+                if empty_operand:
+                    return "ok", "ref"   # see above: the verdict must not depend on what ORT found in memory
                 return "skip:ort-differs-reference-agrees-with-torch", d
             d = dr + " [reference evaluator; ORT: " + d + "]"  # classify by the reference's answer
     return K.classify_diff(d), d
